@@ -388,6 +388,9 @@ def check(ctx):
     ctx.rule("R6", "the watch survives its neighbours' timeouts: the ping loop sleeps in config_sleep on a future shared with every other sleeper; that wait must not be able to cancel the shared future (asyncio.wait, or wait_for on a shield) - otherwise the first timeout of any sleeper ends the ping loop with CancelledError and an unreachable spa is never reported (C17's sleeper model borrowed)")
     from .c17 import sleeper_model
     sleeper_model(ctx.borrowed("R6", "C17", key_contains="leaves-the-shared-future-alone"), repo, "R3")
+    ctx.rule("R8", "a discovery nobody answers does not end the driver: async_connect on the manager model, with the real locator on a model event loop where no reply arrives, announces SPA_NOT_FOUND and returns - it does not raise (an assertion on a descriptor list that is None escapes the driver loop and nothing ever reconnects) (C08.I11 borrowed)")
+    from .c08 import nothing_found_is_announced as _nfa
+    _nfa(ctx.borrowed("R8", "C08"), repo, "I11")
     ctx.rule("R7", "what one connection counts does not follow the manager into the next: no class keeps per-connection data (error counts, change lists, caches) in a class-level container mutated through the instance (C10.R8's rule borrowed) - an RF-error count shared by all RFERR handlers of the process crosses the halt threshold in the middle of a later handshake and the reset it triggers kills the reconnect driver")
     from .c10 import shared_class_state
     shared_class_state(ctx.borrowed("R7", "C10"), repo, "R8")
